@@ -90,6 +90,10 @@ def gen_cases(ctx: common.Ctx, n_fix: int, n_ts: int) -> Iterator[dict[str, Any]
             continue
         files[target] = m[0]
         flags = clean_flags(c.flags)
+        if r.random() < 0.2:
+            flags = [*flags, "--pretty"]      # source-line rendering (message well-formedness is then not judged)
+        if r.random() < 0.1:
+            flags = [*flags, "--show-error-context", "--show-column-numbers", "--show-error-end"]
         made += 1
         yield {"fn": "vlib.tasks.basic:check_typeshed",
                "args": {"files": files, "flags": ["--show-traceback", *flags], "targets": ["main.py"]},
@@ -205,7 +209,7 @@ def run(ctx: common.Ctx) -> None:
                     ctx.violation(k, "internal failure instead of a diagnostic",
                                   {"task": t, "res": {kk: res.get(kk) for kk in ("status", "crash", "internal", "err")}}, case=cid)
                     return
-                bad = malformed(res)
+                bad = malformed(res) if "--pretty" not in t["args"].get("flags", []) else None
                 if bad is not None:
                     ctx.violation("malformed-message", f"ill-formed output line {bad!r}", {"task": t, "line": bad}, case=cid)
                     return
